@@ -67,9 +67,12 @@ PROPS["C13"] = {
         {"pkg": "sqlite", "dir": "sqlite", "entry": "VerifH_C13_sqlite", "extra": [("s3db_export", ".")], "no_native": True,
          "quick": {"params": "steps=2", "workers": 16, "timeout": 1800},
          "thorough": {"params": "steps=3", "workers": 16, "timeout": 7200}},
+        {"pkg": "sqlite", "dir": "sqlite", "entry": "VerifH_C13_sqlite", "tag": "-txn-shaped", "extra": [("s3db_export", ".")], "no_native": True,
+         "quick": {"params": "steps=3,opset=1", "workers": 16, "timeout": 1800},
+         "thorough": {"params": "steps=4,opset=1", "workers": 16, "timeout": 7200}},
     ],
-    "bounds": {"quick": "0..2 unmerged versions; sequences of 2 operations from {insert, update, delete, begin+commit, begin+rollback, vacuum, delete-historic-versions, roots}",
-               "thorough": "0..3 versions, 3 operations"},
+    "bounds": {"quick": "0..2 unmerged versions, optionally merged by a writer since (superseded history present); sequences of 2 operations from {insert, update, delete, begin+commit, begin+rollback, vacuum, delete-historic-versions, roots}; at the sqlite layer 2 statements from {INSERT, UPDATE, DELETE, BEGIN..refused write..COMMIT, s3db_refresh+s3db_version (optionally after another writer committed), s3db_changes, s3db_vacuum} and 3 statements from {INSERT, BEGIN..COMMIT, refresh}",
+               "thorough": "0..3 versions, 3 operations; sqlite layer 3 and 4 statements"},
     "outside": "argument parsing of the maintenance tables",
     "assumptions": [TIME_RANGE],
 }
